@@ -277,6 +277,16 @@ def _install_hooks():
   _HOOKS['ok'] = True
 
 
+def call_events(spec):
+  """Every call event of a scenario, including follow-up calls chained behind another call ('then')."""
+  out = []
+  for e in spec.get('events', []):
+    while e is not None and e.get('op') == 'call':
+      out.append(e)
+      e = e.get('then')
+  return out
+
+
 def outcome_kind(ar):
   """Canonical outcome of a completed call result."""
   if ar.successful():
@@ -330,9 +340,33 @@ def _run(spec, w):
     if f['op'] != 'recv' and what == 'eof':
       what = _socket.error(32, 'injected EPIPE')
     w.add_fault(f['op'], f['nth'], what, f.get('port'))
-  provider = DynServerSet([members[ep['port']] for ep in spec['endpoints'] if ep.get('member', True)])
-
+  providers = []
   timeout_s = spec.get('timeout', 64) * V.TICK
+
+  def make_builder():
+    provider = DynServerSet([members[ep['port']] for ep in spec['endpoints'] if ep.get('member', True)])
+    providers.append(provider)
+    return _make_builder(spec, stack, provider, timeout_s)
+  b = make_builder()
+
+  calls = {}
+  built = {}
+
+  def build():
+    built['c'] = b.Build()
+    if spec.get('twin'):
+      # a second, identically configured client in the same process (instances must not share state)
+      built['c2'] = make_builder().Build()
+  # Build blocks on evt.wait(open_timeout) -> run it in a greenlet and drive the clock meanwhile
+  g = gevent.spawn(build)
+  w.greenlets.append(g)
+  w.settle()
+  limit = T0 + spec.get('open_limit', 64 * 40) * V.TICK
+  w.run_until(lambda: ('c' in built and (not spec.get('twin') or 'c2' in built)) or g.dead, limit)
+  return _drive(spec, w, servers, members, providers, built, calls)
+
+
+def _make_builder(spec, stack, provider, timeout_s):
   if stack == 'thrift':
     from scales.thrift.builder import Thrift
     from scales.resurrector import ResurrectorSink
@@ -357,30 +391,26 @@ def _run(spec, w):
     b.SetOpenTimeout(0)
   else:
     b.SetOpenTimeout(None)
+  return b
 
-  calls = {}
-  built = {}
 
-  def build():
-    built['c'] = b.Build()
-  # Build blocks on evt.wait(open_timeout) -> run it in a greenlet and drive the clock meanwhile
-  g = gevent.spawn(build)
-  w.greenlets.append(g)
-  w.settle()
-  limit = T0 + spec.get('open_limit', 64 * 40) * V.TICK
-  w.run_until(lambda: 'c' in built or g.dead, limit)
+def _drive(spec, w, servers, members, providers, built, calls):
+  stack = spec['stack']
   trace = {'calls': calls, 'open_done_at': ticks(w.clock.now) if 'c' in built else None}
   if 'c' not in built:
     trace['open_failed'] = True
-  client = built.get('c')
+  clients = [built.get('c'), built.get('c2')]
   t_base = w.clock.now
   trace['t_base'] = ticks(t_base)
 
   events = sorted(spec.get('events', []), key=lambda e: e['at'])
-  closed = [False]
+  closed_by = [[False], [False]]
 
   def do_event(e):
     op = e['op']
+    ci = 1 if (e.get('client') == 1 and clients[1] is not None) else 0
+    client = clients[ci]
+    closed = closed_by[ci]
     if op == 'call':
       cid = e['id']
       rec = {'id': cid, 'issued': ticks(w.clock.now), 'timeout': e.get('timeout') or spec.get('timeout', 64),
@@ -425,10 +455,22 @@ def _run(spec, w):
       w.keep.append(ar)
       ar.rawlink(on_done)
       rec['_ar'] = ar
+      if e.get('then'):
+        # a sequential caller: the follow-up call is issued by a greenlet the moment this one completes
+        def chain(ar=ar, nxt=e['then']):
+          try:
+            ar.wait()
+          except BaseException:
+            pass
+          do_event(nxt)
+        cg = gevent.spawn(chain)
+        w.greenlets.append(cg)
     elif op == 'join':
-      provider.join(members[e['port']])
+      for provider in providers:
+        provider.join(members[e['port']])
     elif op == 'leave':
-      provider.leave(members[e['port']])
+      for provider in providers:
+        provider.leave(members[e['port']])
     elif op == 'close':
       if client is not None and not closed[0]:
         closed[0] = True
@@ -477,9 +519,10 @@ def _run(spec, w):
   trace['events'] = [list(x) for x in w.trace]
   trace['netlog'] = [[ticks(x[0])] + [str(y) for y in x[1:]] for x in w.log]
   trace['closes'] = [[ticks(t), port, cid, sq] for (t, port, cid, sq) in getattr(w, 'closes', [])]
-  if client is not None and not closed[0]:
-    try:
-      client.DispatcherClose()
-    except Exception:
-      pass
+  for ci in (0, 1):
+    if clients[ci] is not None and not closed_by[ci][0]:
+      try:
+        clients[ci].DispatcherClose()
+      except Exception:
+        pass
   return trace
